@@ -100,6 +100,7 @@ def run(tier='quick'):
     c18.shape(chk, R1, maps)
     _keyvalue_agreement(chk, R2, maps)
     _filter_agreement(chk, R2, maps)
+    range_copy_agreement(chk, R2, maps)
     for table in ('Track', 'PerformanceData'):
         for side in ('write', 'read'):
             gm = generic_maps(maps, table, side)
@@ -111,6 +112,7 @@ def run(tier='quick'):
     tmaps = rowrules.expand_sites(prog, cg, eff, tfuncs)
     c18.shape(chk, R1, tmaps)
     c18.agreement(chk, R2, c18.field_maps(tmaps, 'Track', V2 + 'track_row'), 'Track', 'track_table')
+    range_copy_agreement(chk, R2, tmaps)
     c18.resolve(chk, R3, tmaps, order, cats, v2lo, v2hi)
 
     # ---- R5 ----------------------------------------------------------------------------
@@ -496,3 +498,77 @@ def _filter_agreement(chk, R2, maps):
                     'only): such a value reads back as absent' % (inst, odd))
             else:
                 chk.ok(R2, inst, sm.loc)
+
+
+def range_copy_agreement(chk, rid, maps):
+    """Statements that are schema-range copies of each other (same function, same kind, same
+    table) must agree, on the columns they share, in the source bound to the column *including
+    the conversion wrappers applied on the way* (to_timestamp, encode, static_cast target),
+    and in the residual row filter.  A copy edited alone stores or reads a column differently in
+    one schema range only."""
+    import collections
+    from .. import rowmap as _rm, rowrules as _rr, program as _pg
+    order = _rr.enum_order(_pg.load())
+    groups = collections.defaultdict(list)
+    for sm in maps:
+        if sm.stmt.kind in ('insert', 'update', 'select', 'delete') and \
+                (sm.stmt.table or '').lower() not in ('metadata', 'metadatainteger'):
+            groups[(sm.func.key, sm.func.qualname, sm.stmt.kind, (sm.stmt.table or '').lower())].append(sm)
+    for (fkey, fn, kind, table), lst0 in sorted(groups.items()):
+        # range copies: statements under pairwise disjoint schema-guard intervals
+        iv = {}
+        for sm in lst0:
+            lo, hi = _rm.schema_guard(sm.func, sm.site.node, order)
+            if (lo, hi) != (0, len(order) - 1):
+                iv.setdefault((lo, hi), sm)
+        lst = list(iv.values())
+        ks = sorted(iv)
+        disjoint = all(ks[i][1] < ks[i + 1][0] for i in range(len(ks) - 1))
+        if len(lst) < 2 or not disjoint:
+            continue
+        per_col = collections.defaultdict(lambda: collections.defaultdict(list))
+        filt = collections.defaultdict(list)
+        for sm in lst:
+            if kind in ('insert', 'update'):
+                for col, src, role, p in sm.col_src:
+                    if src is None or col is None or role not in ('value', 'set'):
+                        continue
+                    if src.root and src.root[0] == 'const':
+                        sig = 'const'
+                    else:
+                        sig = '%s|%s' % (src.key(), ','.join(v.split('<')[0] for v in src.via))
+                    per_col[col.lower()][sig].append(sm)
+            elif kind == 'select':
+                for text, col, tgt in sm.out:
+                    if not col or not tgt:
+                        continue
+                    via = tgt[3] if tgt[0] == 'field' and len(tgt) > 3 else []
+                    sig = '%s|%s' % (tgt[2] if tgt[0] == 'field' else tgt[0], ','.join(v.split('<')[0] for v in via))
+                    per_col[col.lower()][sig].append(sm)
+            where = sm.stmt.select.where if (kind == 'select' and sm.stmt.select is not None) else sm.stmt.where
+            res = tuple(sorted(c for c in _conjuncts(where) if not re.match(r'^[\w.]+ = \?$', c)))
+            filt[res].append(sm)
+        short = fn.replace('djinterop::engine::', '')
+        bad = False
+        for col, sigs in per_col.items():
+            if len(sigs) > 1:
+                major = max(sigs, key=lambda k: len(sigs[k]))
+                for sg, sms in sigs.items():
+                    if sg == major:
+                        continue
+                    bad = True
+                    chk.violation(rid, '%s|%s %s|copies differ on %s' % (short, kind, table, col), sms[0].loc,
+                                  '%s: the %s on %s at %s handles column %s as [%s] while its %d sibling range '
+                                  'copy(ies) handle it as [%s]' % (short, kind, table, sms[0].loc, col, sg,
+                                                                   len(sigs[major]), major))
+        if len(filt) > 1:
+            major = max(filt, key=lambda k: len(filt[k]))
+            for r, sms in filt.items():
+                if r != major:
+                    bad = True
+                    chk.violation(rid, '%s|%s %s|copies filter differently' % (short, kind, table), sms[0].loc,
+                                  '%s: the %s on %s at %s filters rows by %s, its sibling range copies by %s' % (
+                                      short, kind, table, sms[0].loc, list(r) or 'nothing', list(major) or 'nothing'))
+        if not bad:
+            chk.ok(rid, '%s: %d range copies of the %s on %s agree on sources, conversions and row filter' % (
+                short, len(lst), kind, table), lst[0].loc)
